@@ -4,7 +4,7 @@
 From Coq Require Import NArith ZArith List Bool.
 Import ListNotations.
 Require Import UV.Gen.Consts UV.Mcount.Model UV.Mcount.Forest UV.Mcount.PlainStep UV.Mcount.PlainProofs
-  UV.Mcount.Codec UV.Mcount.PlainMore UV.Mcount.Overflow UV.Mcount.Embed UV.Mcount.EmbedOver UV.Mcount.EmbedMore UV.Mcount.Check UV.Mcount.Monotone UV.Mcount.Threads UV.Mcount.ForkChild UV.Mcount.Restore UV.Mcount.Method UV.Mcount.OverflowCyg.
+  UV.Mcount.Codec UV.Mcount.PlainMore UV.Mcount.Overflow UV.Mcount.Embed UV.Mcount.EmbedOver UV.Mcount.EmbedMore UV.Mcount.Check UV.Mcount.Monotone UV.Mcount.Threads UV.Mcount.ForkChild UV.Mcount.Restore UV.Mcount.Method UV.Mcount.OverflowCyg UV.Mcount.ThreadExit.
 Local Open Scope N_scope.
 
 (* Writer and readers agree on the record word: the hand-packed word of record_ret_stack decodes,
@@ -174,3 +174,24 @@ Theorem C02_deeper_dropped_not_corrupted_cyg : forall gd ms, ms <= gd -> forall 
   out (fst (exec (plain 0 gd ms CYG) (flat_forest f) (init, []))) = flat_map (recs 0 ms 0) f.
 Proof. exact run_forest_cyg. Qed.
 Print Assumptions C02_deeper_dropped_not_corrupted_cyg.
+
+(* A thread that ends in pthread_exit() with calls still open: under the plain configuration, any instrumentation shape,
+   inside the limits -D and --max-stack, after ANY well-bracketed sequence of entries and exits ([wfev]: every entry
+   inside the limits at a clock reading in (0, 2^64), every exit later than its entry) the records the thread leaves -
+   what it wrote plus what libmcount's pthread_exit wrapper flushes for the open calls - are exactly its history: an
+   ENTRY for every call entered, an EXIT for every call left, in order, depth = number of open calls. *)
+Theorem C02_pthread_exit_leaves_history : forall gd ms sh es, wfev gd ms es [] ->
+  out (do_thread_exit (plain 0 gd ms sh) (fst (exec (plain 0 gd ms sh) es (init, [])))) = prefix_records es [].
+Proof. exact thread_exit_history. Qed.
+Print Assumptions C02_pthread_exit_leaves_history.
+
+Theorem C02_pthread_exit_example :
+  wfev 1024 1024 [Enter 0 100; Enter 256 110; Enter 512 120; Leave 130; Enter 768 140] [] /\
+  prefix_records [Enter 0 100; Enter 256 110; Enter 512 120; Leave 130; Enter 768 140] [] =
+    [{| r_time := 100; r_type := ENTRY; r_depth := 0; r_addr := 0 |};
+     {| r_time := 110; r_type := ENTRY; r_depth := 1; r_addr := 256 |};
+     {| r_time := 120; r_type := ENTRY; r_depth := 2; r_addr := 512 |};
+     {| r_time := 130; r_type := EXIT; r_depth := 2; r_addr := 512 |};
+     {| r_time := 140; r_type := ENTRY; r_depth := 2; r_addr := 768 |}].
+Proof. exact thread_exit_example. Qed.
+Print Assumptions C02_pthread_exit_example.
